@@ -749,6 +749,83 @@ def _dominated_by_oversize(C, fn, sp, w, nd):
     return not any('S+' in w.kinds(fn, x[0]) for x in tail if x != nd)
 
 
+def check_newcomer_queued_before_victims(run, ctx, rule='C07-S4'):
+    """when a store picks victims *after* it has written its own entry into the store, its key must already be at the
+    most-recent end of the queue: otherwise the entry just stored sits at its old position (a re-store) or nowhere and the
+    victim selection takes the newest entry - the opposite of FIFO / LRU - and its key is appended afterwards as an orphan"""
+    C = Core(ctx)
+    n = 0
+    for flav, adt in FLAVOURS:
+        for m in ('insert', 'insert_with_memory'):
+            fn = C.method(adt, m)
+            if fn is None:
+                continue
+            for p in range(6):
+                a = {'policy': p, 'limit': 1, 'max_memory': 1 if m == 'insert_with_memory' else 0, 'ttl': 0}
+                w = C.weigher(a, {}, root=fn)
+                specs = {}
+
+                def spec_of(x):
+                    if x.id not in specs:
+                        specs[x.id] = w.spec(x)
+                    return specs[x.id]
+
+                def prefixes(x, depth=0):
+                    """effect vectors of everything executed before body x starts (x = fn: nothing)"""
+                    zero = tuple([0] * w.dims)
+                    if x is fn or depth > 4:
+                        return {zero}
+                    par = ctx.prog.bodies.get(x.parent)
+                    if par is None:
+                        return {zero}
+                    blks = {blk for (blk, cb, how) in ctx.prog.call_edges(par) if cb.id == x.id and how == 'closure'}
+                    if not blks:
+                        return {zero}
+                    seg = segment_totals(spec_of(par), {0}, blks)
+                    here = set()
+                    for (how, blk), vs in seg.items():
+                        if how == 'stop':
+                            here |= vs
+                    if 0 in blks:
+                        here.add(zero)
+                    out = set()
+                    for pv in prefixes(par, depth + 1):
+                        for v in here:  # empty: the closure is never run under this assumption
+                            out.add(tuple(min(2, i + j) for i, j in zip(pv, v)))
+                    return out
+                bad_at = None
+                seen_any = False
+                for body in C.scope(fn):
+                    sp = spec_of(body)
+                    victims = {nd[0] for nd in sp.nodes if 'S-' in w.kinds(body, nd[0])}
+                    if not victims:
+                        continue
+                    seen_any = True
+                    seg = segment_totals(sp, {0}, victims)
+                    segv = set()
+                    for (how, blk), vs in seg.items():
+                        if how == 'stop':
+                            segv |= vs
+                    if 0 in victims:
+                        segv.add(tuple([0] * w.dims))
+                    for pv in prefixes(body):
+                        for v in segv:
+                            d = _vec(tuple(min(2, i + j) for i, j in zip(pv, v)))
+                            if d['S+'] >= 1 and d['Q>'] + d['Q<'] == 0:
+                                bad_at = body
+                if not seen_any:
+                    continue
+                n += 1
+                key = '%s/%s/%s' % (flav, m, POL[p])
+                if bad_at is not None:
+                    run.bad(rule, '%s/%s/victims-before-own-key-is-queued' % (flav, m), '%s writes its entry into the store and then selects victims before the key has been (re-)appended to the '
+                            'order queue (policy %s): on a re-store the fresh entry still has its old queue position and is what gets evicted; its key is appended afterwards as an orphan'
+                            % (fn.name, POL[p]), site=bad_at.name, oracle='own key queued at the most-recent end before any victim is chosen (or the entry is not yet stored)')
+                else:
+                    run.ok(rule, key, 'no victim is chosen between the store write and the queue append')
+    return n
+
+
 def check_store_pairing(run, ctx, rule='C04-P4'):
     """C04-P4 / C07-S3 store subset of queue: a completed store leaves the key in the store and (re-)appends it at the
     store end of the queue on every path (a re-store therefore moves the key to the back)"""
